@@ -167,6 +167,13 @@ def _configs(tier):
                         # no trace functions at all: statistics are still recorded for exactly the requested iterations
                         out.append({"n_warm": n_warm, "n_main": n_main, "n_chain": 2, "trace_warm_up": twu, "stager": stager, "adapters": adapters,
                                     "n_process": n_process, "force_memmap": False, "init": "dict", "traced": False})
+    # chain counts other than two: a single chain (also with more worker processes than chains) and three chains on two workers
+    for n_chain in (1, 3):
+        for n_warm, n_main in ((0, 2), (2, 2), (3, 1)):
+            for twu in (False, True):
+                for n_process, fm in ((1, False), (1, True), (2, False), (3, False), (None, False)):
+                    out.append({"n_warm": n_warm, "n_main": n_main, "n_chain": n_chain, "trace_warm_up": twu, "stager": "warmup", "adapters": "fast",
+                                "n_process": n_process, "force_memmap": fm, "init": "dict"})
     # composed samplers: two transitions whose statistics share their keys, in memory / memory-mapped / modelled parallel
     for n_warm, n_main in ((0, 2), (2, 2), (3, 1)) + (((5, 3),) if th else ()):
         for twu in (False, True):
